@@ -64,6 +64,8 @@ pub fn same(a: &V, b: &V) -> bool {
         (V::Double(x), V::Double(y)) | (V::LitF(x), V::LitF(y)) => x.to_bits() == y.to_bits() || (x.is_nan() && y.is_nan()),
         (V::LitI(x), V::LitI(y)) => x == y,
         (V::Vec(x), V::Vec(y)) | (V::Struct(x), V::Struct(y)) | (V::Array(x), V::Array(y)) => x.len() == y.len() && x.iter().zip(y).all(|(p, q)| same(p, q)),
+        // a vector of one element and its element are the same value (Metal has no one-element vector types)
+        (V::Vec(x), s) | (s, V::Vec(x)) if x.len() == 1 && s.is_scalar() => same(&x[0], s),
         _ => false,
     }
 }
